@@ -81,8 +81,10 @@ func (c *connection) closeBuffer() {
 	onConnect, _ := c.onConnectCallback.Load().(OnConnect)
 	onRequest, _ := c.onRequestCallback.Load().(OnRequest)
 	// if client close the connection, we cannot ensure that the poller is not process the buffer,
-	// so we need to check the buffer length, and if it's an "unclean" close operation, let's give up to reuse the buffer
-	if c.inputBuffer.Len() == 0 || onConnect != nil || onRequest != nil {
+	// so we need to check the buffer length, and if it's an "unclean" close operation, let's give up to reuse the buffer.
+	// Unread input is only recycled when an OnRequest handler has been offered it: with OnConnect alone the
+	// connection is read through its Reader, and what the peer sent before it closed must stay readable.
+	if c.inputBuffer.Len() == 0 || onRequest != nil {
 		c.inputBuffer.Close()
 	}
 	if c.outputBuffer.Len() == 0 || onConnect != nil || onRequest != nil {
